@@ -8,6 +8,7 @@
  5. Import::compile queues a compilation only under CompilationLock::can_compile, then marks it;
  6. only `export`-flagged declarations reach Export::add; ModuleType::get_property reads exported_members only.
 """
+import re
 import mir
 import rules
 from mir import op_local, op_const, op_place
@@ -415,6 +416,7 @@ def run(ctx, rep):
     names_import_shares(F, rep)
     exports_declared_once(F, rep)
     modules_are_not_left_by_return(F, rep)
+    exports_are_registered_by_module_level_code(F, rep)
 
 
 def rules_fn_arg(fn, op):
@@ -666,3 +668,45 @@ def modules_are_not_left_by_return(F, rep, rule="C11.module-exit"):
     else:
         v, info = rules.guarded_by_bool(rs, oks, [c.dst["l"] for c in tests], want=True)
     rep.ob(rule, "a `return` statement is accepted only inside of a function", v, str(info) if v != "ok" else "", rs.span, fn=rs.path, key=rule)
+
+
+
+def exports_are_registered_by_module_level_code(F, rep, rule="C11.export-once"):
+    """The export map takes a name once per run of the module (`update_once`).  Code inside a function body can run any number of times, so an
+    instruction that registers an export (`export_special`, `export_name`) may only be emitted for a statement at the top level of the
+    module: a class declared inside of a function used to emit `export_special` and the second call of the function died with `Double
+    export`.  Per emission site: in Class::compile the site lies behind the true edge of a flag of the node that Parser::class fills from
+    is_at_module_level(); for `export x = ..` the parser refuses the flag anywhere else."""
+    import opcodes
+    sites = [(f, name, span, call) for (f, name, span, call) in opcodes.instruction_literals(F) if name in ("export_special", "export_name")]
+    rep.floor(rule + " emission sites of export instructions", len(sites), 2)
+    pa = F.fn("compiler::ast::assignment::<impl compiler::parser::Parser>::assignment")
+    pc = F.fn("compiler::ast::class::<impl compiler::parser::Parser>::class")
+    if pa is None or pc is None:
+        raise AnchorMissing("Parser::assignment / Parser::class")
+    for f, name, span, call in sites:
+        owner = mir.short(re.sub(r"::\{closure#\d+\}", "", f.path))
+        if "Assignment" in owner:
+            tests = pa.calls_to("compiler::parser::AssocFileData::is_at_module_level")
+            ok = bool(tests)
+            why = "" if ok else "Parser::assignment never asks is_at_module_level(): an `export` inside a function body would register once per call"
+        elif "Class" in owner:
+            flags = []
+            for bi, si, dst, rv, st in f.assigns():
+                pl = mir.op_place(rv["use"]) if "use" in rv else None
+                if pl and pl["l"] == 1 and f.locals[dst["l"]].strip() == "bool" and any(e[0] == "field" and "module" in str(e[2]) for e in pl.get("p") or []):
+                    flags.append(dst["l"])
+            v, info = rules.guarded_by_bool(f, [call.bb], flags, want=True) if flags else ("violated", "no module-level flag of the node is tested")
+            fed = any(c.matches("compiler::parser::AssocFileData::is_at_module_level") for c in pc.calls())
+            ok = v == "ok" and fed
+            why = "" if ok else "%s; Parser::class asks is_at_module_level(): %s - `mk = fn() { class P {..} }` called twice dies with `Double export`" % (info, fed)
+        elif owner.startswith("<Export as"):
+            # one instruction per entry of the module's export list: the list is filled by ModuleType::from_node only, which reads the file's
+            # top-level statements
+            adders = sorted({mir.short(re.sub(r"::\{closure#\d+\}", "", g.path)) for g in F.crates["compiler"].fns if g.calls_to("compiler::ast::export::Export::add")})
+            ok = adders == ["ModuleType::from_node"]
+            why = "" if ok else "the export list is also filled by %s" % adders
+        else:
+            ok, why = False, "an emitter of %s this rule does not know" % name
+        rep.ob(rule, "%s emits %s only for a declaration at the top level of the module" % (owner, name), "ok" if ok else "violated", why, span, fn=f.path,
+               key="%s|module-level|%s|%s" % (rule, owner, name))
